@@ -19,9 +19,9 @@ func init() {
 			Explanation: "Decides the dataflow shape of fee computation: (table) every live handler's CommissionData result is built from fields of the commission.Price it is given (no constants), and every field of commission.Price is covered by every place the table travels through — written by State.Import and by the live VoteCommission mapper, read by Commission.Export and by the UpdateCommissions event in EndBlock, and consumed by at least one fee computation in transaction code; " +
 				"(formula) tx.Price = CommissionData(price) + payloadAndServiceDataLen()·PayloadByte, MulGasPrice = GasPrice·x, RunTx computes MulGasPrice(tx.Price(GetCommissions())), converts it through CheckSwap only under `!commissions.Coin.IsBaseCoin()`, and hands exactly that value to Run; every Run starts its commission from that parameter (C01.fee signatures); " +
 				"(reach) the base-coin value of the fee is added to the reward pool (C01.fee: rewardPool.Add of price / the fee swap's output); (burn) ticker-creation fees: RunTx subtracts symbolPrice from the reward pool and credits the same value to the zero address, only for CreateCoin/CreateToken, with symbolPrice = MulGasPrice(PayForSymbol(commissions)) (converted like the fee). " +
-				"NOT decided: that the cheaper of pool/reserve route is numerically the cheaper one, rounding of conversions.",
+				"(route) every CalculateCommission call compares the pool GetSwapper(X, base) with the reserve of GetCoin(X) for one and the same coin X — the inputs of the cheaper-route choice agree. NOT decided: that the cheaper of pool/reserve route is numerically the cheaper one, rounding of conversions.",
 			Assumptions: stdAssumptions,
-			Rules:       []string{"C27.table", "C27.cover", "C27.formula", "C27.burn"},
+			Rules:       []string{"C27.table", "C27.cover", "C27.formula", "C27.burn", "C27.route"},
 		},
 		Run: runC27,
 	})
@@ -48,6 +48,7 @@ func isPriceField(v ssa.Value) (string, bool) {
 }
 
 func runC27(c *core.Ctx) {
+	defer checkRouteInputs(c, "C27.route")
 	priceT := c.Named(core.PkgState+"/commission", "Price")
 	if priceT == nil {
 		c.Unk("C27.table", "commission.Price", token.NoPos, "type not found")
@@ -431,4 +432,52 @@ func reachedOnlyThroughTypeTests(m *RunModel, s *core.Site) bool {
 		}
 	}
 	return false
+}
+
+// checkRouteInputs — "a commission paid in a custom coin uses the cheaper of the pool route and the
+// bancor-reserve route": CalculateCommission compares the two routes for the coin model it is given
+// (reserve route) and the pool it is given (pool route). Both have to be about the same coin — the
+// coin the fee is debited in: the pool must be GetSwapper(X, base) and the coin model GetCoin(X) for
+// one and the same X. A pool looked up for another coin makes the pool route look unavailable (or
+// quotes a foreign pool), so the dearer route is taken.
+func checkRouteInputs(c *core.Ctx, rule string) {
+	type item struct {
+		name string
+		fn   *ssa.Function
+	}
+	var items []item
+	for _, m := range LiveModels(c, rule) {
+		items = append(items, item{m.H.TypeName + ".Run", m.Fn})
+	}
+	if fn := c.RunTx(); fn != nil {
+		items = append(items, item{"RunTx", fn})
+	}
+	n := 0
+	for _, it := range items {
+		for _, s := range core.Sites(it.fn) {
+			if !strings.HasSuffix(s.Callee, ".CalculateCommission") {
+				continue
+			}
+			n++
+			var poolCoin, modelCoin ssa.Value
+			var baseOK bool
+			for _, o := range core.Origins(s.Arg(1)) {
+				if call, ok := o.(*ssa.Call); ok && methodNameOfCall(call) == "GetSwapper" {
+					cs := &core.Site{Instr: call, Common: &call.Call}
+					poolCoin = cs.Arg(0)
+					baseOK = strings.HasSuffix(core.Path(cs.Arg(1)), "GetBaseCoinID()")
+				}
+			}
+			for _, o := range core.Origins(s.Arg(2)) {
+				if call, ok := o.(*ssa.Call); ok && methodNameOfCall(call) == "GetCoin" {
+					cs := &core.Site{Instr: call, Common: &call.Call}
+					modelCoin = cs.Arg(0)
+				}
+			}
+			good := poolCoin != nil && modelCoin != nil && baseOK && core.SameValue(poolCoin, modelCoin)
+			c.Check(good, rule, it.name+"/same-coin", s.Pos(), "CalculateCommission compares the pool of coin X with base against the reserve of the same coin X ("+core.Path(poolCoin)+")",
+				"the pool route and the reserve route handed to CalculateCommission are about different coins (pool of "+core.Path(poolCoin)+", model of "+core.Path(modelCoin)+"): the cheaper-route choice is made against the wrong pool")
+		}
+	}
+	c.Floor(rule, n, 38, "CalculateCommission call sites (live handlers + failure branch)")
 }
